@@ -40,28 +40,30 @@ type Obligation struct {
 }
 
 type Engine struct {
-	P           *Program
-	ts          *TermStore
-	Obls        []*Obligation
-	tags        map[string]int
-	tagNames    map[int]string
-	anonStructs map[string]string
-	baseSeq     int
-	strLits     map[string]*Term
-	fltLits     map[string]*Term
-	Unsupported map[string][]string // func key -> reasons (outside reach)
-	Assumptions map[string]bool     // trusted facts used (externals etc.)
-	Verified    []string            // functions under contract whose body was verified
-	effects     *EffectInfo
-	globalsInit map[*types.Var]*ast.CompositeLit
-	curFx       *fctx
-	Debug       bool
-	typeInvs    map[string]*typeInvInfo
-	boxMode     int
-	pegFacts    map[string]*actionFacts
-	heapIds     map[int]*Term // heap-id constant (by term id of the id constant) -> array term
-	heapIdOf    map[int]*Term // array term id -> heap-id constant
-	autoInl     map[*FuncInfo]bool
+	P             *Program
+	ts            *TermStore
+	Obls          []*Obligation
+	tags          map[string]int
+	tagNames      map[int]string
+	anonStructs   map[string]string
+	baseSeq       int
+	strLits       map[string]*Term
+	fltLits       map[string]*Term
+	Unsupported   map[string][]string // func key -> reasons (outside reach)
+	Assumptions   map[string]bool     // trusted facts used (externals etc.)
+	Verified      []string            // functions under contract whose body was verified
+	effects       *EffectInfo
+	globalsInit   map[*types.Var]*ast.CompositeLit
+	curFx         *fctx
+	Debug         bool
+	typeInvs      map[string]*typeInvInfo
+	boxMode       int
+	pegFacts      map[string]*actionFacts
+	heapIds       map[int]*Term // heap-id constant (by term id of the id constant) -> array term
+	heapIdOf      map[int]*Term // array term id -> heap-id constant
+	autoInl       map[*FuncInfo]bool
+	mapTypesCache []*types.Map
+	globalsAlloc  map[*types.Var]bool // package-level variables initialised by an allocation (new / &T{})
 }
 
 // heapID names an array term by an integer constant, so that spec functions over heaps (psum) do not take
@@ -92,6 +94,35 @@ func NewEngine(p *Program) *Engine {
 	return e
 }
 
+// isAllocExpr: new(T), &T{...}, or a conversion / parenthesisation of one (e.g. unsafe.Pointer(new(T))).
+func isAllocExpr(x ast.Expr) bool {
+	switch y := x.(type) {
+	case *ast.ParenExpr:
+		return isAllocExpr(y.X)
+	case *ast.UnaryExpr:
+		if y.Op == token.AND {
+			_, ok := y.X.(*ast.CompositeLit)
+			return ok
+		}
+	case *ast.CallExpr:
+		if id, ok := y.Fun.(*ast.Ident); ok && id.Name == "new" && len(y.Args) == 1 {
+			return true
+		}
+		if len(y.Args) == 1 {
+			// conversion T(x) of an allocation (the caller only uses this for pointer-like globals)
+			switch f := y.Fun.(type) {
+			case *ast.SelectorExpr:
+				if f.Sel.Name == "Pointer" {
+					return isAllocExpr(y.Args[0])
+				}
+			case *ast.ParenExpr:
+				return isAllocExpr(y.Args[0])
+			}
+		}
+	}
+	return false
+}
+
 func (e *Engine) collectGlobalInits() {
 	for _, f := range e.P.Pkg.Syntax {
 		for _, d := range f.Decls {
@@ -106,6 +137,14 @@ func (e *Engine) collectGlobalInits() {
 						if cl, ok := vs.Values[i].(*ast.CompositeLit); ok {
 							if v, ok := e.P.Info.Defs[n].(*types.Var); ok {
 								e.globalsInit[v] = cl
+							}
+						}
+						if isAllocExpr(vs.Values[i]) {
+							if v, ok := e.P.Info.Defs[n].(*types.Var); ok {
+								if e.globalsAlloc == nil {
+									e.globalsAlloc = map[*types.Var]bool{}
+								}
+								e.globalsAlloc[v] = true
 							}
 						}
 					}
@@ -169,6 +208,8 @@ type fctx struct {
 	entryBind     map[string]*Value // parameter values at entry, by name
 	atOrd         int
 	autoInline    int
+	preParamAlloc *Term // allocation frontier before the parameters were bound (boxed parameters live above it)
+	inPeel        int
 	localAddr     map[int]bool  // addresses of boxed local variables (by term id)
 	exitExempt    map[int]*Term // object address (term id) -> condition under which its invariant may be violated at this return
 	madeSlices    map[int]bool  // base addresses of slices allocated with make() in this frame (by term id)
@@ -254,9 +295,10 @@ type callRef struct {
 }
 
 type retState struct {
-	st   *State
-	vals []*Value
-	pos  token.Pos
+	st     *State
+	vals   []*Value
+	pos    token.Pos
+	inPeel bool // return inside a `peel` loop: may be legitimately unreachable in a sequential execution (retry paths)
 }
 
 type retFrame struct {
